@@ -35,8 +35,8 @@ ASSUMPTIONS = [
     "two attribute dictionaries are equal when every value has the same type and value (numpy/TF values by array equality)",
 ]
 
-LIT_Q = ["0", "1", "8", "-1", "1.5", "2.5e-1", "True", "None", "'auto'"]
-LIT_T = LIT_Q + ["-0.25", "1e3", "False", '"auto_po2"', "[1,2]", "[1 2]"]
+LIT_Q = ["0", "1", "8", "-1", "1.5", "2.5e-1", "True", "None", "'auto'", '"auto"']
+LIT_T = LIT_Q + ["-0.25", "1e3", "False", '"auto_po2"', "[1,2]", "[1 2]"]     # (both quote characters are in LIT_Q)
 PY_SPELLING = {"[1 2]": "[1, 2]"}
 CANARIES = [
     "__import__('verif_canary').fire()", "open('%s','w')", "(lambda: __import__('verif_canary').fire())()",
